@@ -33,7 +33,8 @@ def required_cells(tier):
             "variant:nofield": 3, "variant:frozen": 3, "nsys:1": 3, "nsys:2": 3, "nsys:3": 1,
             "start!=0": 4, "record_all:False": 2, "heun_steps_checked": 50,
             "td": 4, "subdiv:None": 8, "second-solver-on-same-system": 8,
-            "pulsed-H&loose-liouvillian-epsrel": 2}
+            "pulsed-H&loose-liouvillian-epsrel": 2,
+            "initial-matrix:non-hermitian": 2}
 
 
 def cases(tier, seed):
@@ -154,6 +155,12 @@ def run_case(case):
         scales.append(scale)
         corrs.append(gen.make_power_law(p))
     rhos = [gen.rand_state(rng, d, ["mixed", "pure"][i % 2]) for d in dims]
+    general_init = bool(variant == "differential" and i % 9 == 5)
+    if general_init:
+        # both methods accept any matrix as initial state (e.g. A rho for a
+        # correlation function): they must treat it alike
+        r0 = gen.cplx(rng, (dims[0], dims[0]), 0.5)
+        rhos[0] = r0 / np.trace(r0)
     # subdiv_limit=None is a documented mode of its own (the Liouvillian is
     # sampled at two points per step instead of integrated): both methods
     # must honour it
@@ -196,6 +203,8 @@ def run_case(case):
         cells.append("second-solver-on-same-system")
     if subdiv is None:
         cells.append("subdiv:None")
+    if general_init:
+        cells.append("initial-matrix:non-hermitian")
     log_a.events.clear()
     dyn_a = tempo.compute(end, progress_type="silent")
     fa = np.array(dyn_a.fields)
